@@ -1,0 +1,12 @@
+//go:build verif
+
+package messages
+
+// VerifRegisteredNames returns the wire names of every registered internal message.
+func VerifRegisteredNames() []string {
+	out := make([]string, 0, len(internalMessageNameOfDesc))
+	for n := range internalMessageNameOfDesc {
+		out = append(out, n)
+	}
+	return out
+}
